@@ -522,13 +522,22 @@ STATIC_CULPRITS = [
      "No variable or function named"),
     ("import-list-type-2nd", "import {{ ping, {C} }} from net;\nfn main() {{\n    println(ping(\"a\", 1.0));\n}}\n", "type CULPRIT", 3, "No type named"),
     ("builtin-fn-param", "fn main() {{\n    let f: fn(seconds: int) -> null = {C};\n    f(1);\n}}\n", "time.sleep", 3, "Mismatched types"),
+    # unused imports are reported at the import entry in the importing file — whatever was imported: a function, a global
+    # or a type of a code module (sixth element: the other modules of the program), a host value
+    ("unused-import-code-fn", "import {{ double, {C} }} from lib2;\nfn main() {{\n    println(double(21));\n}}\n", "culprit", 2, "Import `culprit` is unused",
+     {"lib2": "\n\n// padding\n\npub fn double(n: int) -> int {{ n * 2 }}\n\n\n\n       pub fn culprit(n: int) -> int {{ n }}\nfn main() {{ }}\n"}),
+    ("unused-import-code-fn-single", "import {C} from lib2;\nfn main() {{\n}}\n", "culprit", 2, "Import `culprit` is unused",
+     {"lib2": "\n\n\n\n\n\n\n  pub fn culprit(n: int) -> int {{ n }}\nfn main() {{ }}\n"}),
+    ("unused-import-code-let", "import {{ {C}, k }} from lib2;\nfn main() {{\n    println(k);\n}}\n", "culprit", 2, "Import `culprit` is unused",
+     {"lib2": "\n\n\n\npub let k = 1;\n\n\n     pub let culprit = 2;\nfn main() {{ }}\n"}),
+    ("unused-import-host", "import {{ ping, {C} }} from net;\nfn main() {{\n    println(ping(\"a\", 1.0));\n}}\n", "http", 2, "Import `http` is unused"),
 ]
 
 
 def static_cases(rng, n_layout):
     out = []
-    for name, tmpl, culprit, level, prefix in STATIC_CULPRITS:
-        for where in ("main", "module"):
+    for name, tmpl, culprit, level, prefix, *more in STATIC_CULPRITS:
+        for where in (("main",) if more else ("main", "module")):
             for _ in range(n_layout):
                 pad = "".join(rng.choice(["\n", "// é\n", "/* x\n y */\n", "  \n"]) for _ in range(rng.randrange(0, 4)))
                 text = pad + tmpl.format(C=culprit)
@@ -541,7 +550,7 @@ def static_cases(rng, n_layout):
                     # the error extends to the end-of-input position, one past the last character
                     rng_ = rng_[:2] + (rng_[2], rng_[3] + 1)
                 if where == "main":
-                    case = {"main": b(text), "mods": {}, "file": "main"}
+                    case = {"main": b(text), "mods": {k: b(v.format()) for k, v in more[0].items()} if more else {}, "file": "main"}
                 else:
                     case = {"main": b("import x from lib;\nfn main() {}\n"), "mods": {"lib": b(text)}, "file": "lib"}
                 case.update(name=name, where=where, level=level, prefix=prefix, range=rng_, text=text, culprit=culprit)
